@@ -12,7 +12,11 @@ walk / index order, each file as
 
 Domain (stated as `WF` where a theorem needs it): paths are `/`-separated, without empty, `.` or
 `..` components and without a trailing `/`; inside one archive two entries with the same path are
-the same file; every file is readable.
+the same file; every file is readable. File names of the form `..x` (two leading dots and no
+further dot, e.g. `..gcno`) are outside the domain: std's `with_extension("")` answers `a/..` for
+`a/..gcno` (the copy without the extension has no file name any more, see `Confine.withExtension`),
+so the code looks such a file up as `a/...gcno` and never finds it, while `splitExt` says stem `a/.`
+(seen by harness/c19 `extract.rs`; no generator produces such names on purpose).
 
 The model follows the code program point by program point:
 `splitExt`/`baseName` are `Path::extension`/`with_extension("")`/`file_name` on such paths,
